@@ -25,6 +25,7 @@ pub struct RingN {
     pub max_spins: u64,
     pub livelock: bool,
     pub listener: usize,
+    stall: bool,
 }
 
 const SPIN_LIMIT: u64 = 200_000;
@@ -95,6 +96,7 @@ impl RingN {
             max_spins: 0,
             livelock: false,
             listener: 0,
+            stall: knobs.stall,
         };
         r.settle();
         r
@@ -180,8 +182,24 @@ impl Exec for RingN {
     fn advance_ms(&mut self, ms: u64) {
         let net = self.net.clone();
         stack::capture_panics(true);
+        let jump = self.stall && ms >= 2000;
+        let timer = self.timer.clone();
         let (spins, live) = self.rt.as_ref().unwrap().block_on(async {
-            if ms > 0 {
+            if jump {
+                // the thread that drives the timer was stalled: the clock is moved in one go and
+                // every timer that fell due meanwhile (the 1 Hz tick among them) is late
+                tokio::time::advance(Duration::from_millis(ms)).await;
+                // let the timer task catch up: until the server clock stops moving
+                for _ in 0..4096 {
+                    let before = timer.timestamp();
+                    for _ in 0..8 {
+                        tokio::task::yield_now().await;
+                    }
+                    if timer.timestamp() == before {
+                        break;
+                    }
+                }
+            } else if ms > 0 {
                 tokio::time::sleep(Duration::from_millis(ms)).await;
             }
             quiesce(&net).await
